@@ -256,6 +256,11 @@ func (db *DB) Put(key, value string) error {
 }
 
 func (db *DB) PutBytes(keyBytes, valBytes []byte) error {
+	// same contract as Put: nothing may reach the WAL that the memstore or a later flush can't represent
+	if len(keyBytes) == 0 || len(valBytes) == 0 {
+		return ErrEmptyKeyValue
+	}
+
 	// proto marshal takes 60%(!) of this method execution time
 	walBytes, err := proto.Marshal(&dbproto.WalMutation{
 		Mutation: &dbproto.WalMutation_Addition{
